@@ -36,11 +36,11 @@ def gen_value(rng, t):
     if t == 'boolean':
         return rng.chance(0.5)
     if t == 'date':
-        return datetime.date(rng.pick([1900, 1999, 2024]), rng.randint(1, 12), rng.randint(1, 28))
+        return datetime.date(rng.pick([1900, 1999, 2024, 999, 1]), rng.randint(1, 12), rng.randint(1, 28))
     if t == 'time':
         return datetime.time(rng.randint(0, 23), rng.randint(0, 59), rng.randint(0, 59))
     if t == 'datetime':
-        return datetime.datetime(rng.pick([1970, 2024]), rng.randint(1, 12), rng.randint(1, 28), rng.randint(0, 23), rng.randint(0, 59), rng.randint(0, 59))
+        return datetime.datetime(rng.pick([1970, 2024, 999, 1, 800]), rng.randint(1, 12), rng.randint(1, 28), rng.randint(0, 23), rng.randint(0, 59), rng.randint(0, 59))
     if t == 'year':
         return rng.pick([1999, 2024, 800])
     if t == 'array':
@@ -63,8 +63,12 @@ def gen_cases(rng, tier):
             rows = [dict((nm, gen_value(rng, t)) for nm, t in fields) for _ in range(rng.randint(0, 5))]
             pk = None
             pkg.append({'name': 'res%d' % r, 'fields': fields, 'rows': rows_enc(rows)})
+        # a user-supplied temporal format with a bare %Y cannot represent years below 1000 unambiguously (strftime does not
+        # pad them): such values only with the library's own default formats
+        small_year = any(isinstance(v, (datetime.date, datetime.datetime)) and v.year < 1000
+                         for r in pkg for row in rows_dec(r['rows']) for v in row.values())
         cases.append({'kind': 'roundtrip', 'pkg': pkg, 'format': rng.pick(['csv', 'csv', 'json']), 'zip': rng.chance(0.3),
-                      'hashpath': rng.chance(0.25), 'tfp': rng.chance(0.25)})
+                      'hashpath': rng.chance(0.25), 'tfp': rng.chance(0.25) and not small_year})
     # the CSV layer alone: the model of Python's csv against the csv module, on tables and on arbitrary texts
     alpha = ['a', 'b', ',', '"', '\r', '\n', ' ', 'é']
     for i in range({'quick': 60, 'thorough': 600, 'search': 100}[tier]):
